@@ -16,6 +16,9 @@ CLAIMED={
  "C19":("runtime law monitor over point membership: for every generated pair the results of Union/Intersection/Contains/Intersects/Expanded/Complement/Project/AddPoint/PolarClosure are compared, probe by probe, with the closed-interval membership definition evaluated by the monitor (probes: every endpoint, its +-1 ulp neighbours, midpoints; grids for rectangles); caps: high-precision chord distances with 1e-14 slack; all results must be valid values",
          "Held on every execution observed: ~10^6 (quick) / ~6*10^7 (thorough) pairs of r1/s1 intervals, r2 rectangles, lat-lng rectangles, caps and chord-angle sums, endpoints concentrated at +-pi, +-pi/2, 0 and their ulp neighbours, incl. empty/full/singleton/inverted. 'A does not contain B' is only asserted when a float witness exists (complement of A holds a float).",
          "Trusted: the documented definition of membership in one interval (lo<=p<=hi, wrapped, -pi==pi), internal/ref 320-bit chord lengths for caps.","DESIGN.md section 5 C19"),
+ "C04":("runtime reference-model + partition monitor: every Loop/Polygon/ContainsPointQuery containment answer on every evaluation path (first pass, index fresh, brute force, after Invert twice, single-loop polygon, LaxLoop/LaxPolygon/Loop as index shapes, containsBruteForce) is compared with an exact crossing-parity model; invariant hook on every index cell's containsCenter; model-free exactly-once monitors for loop+inverse, polygon+complement and all cells of one level",
+         "Held on every execution observed: 5*10^3 (quick) / 2.5*10^5 (thorough) loops x ~70-150 probes on 10+ paths, 2*10^3 / 10^5 polygons with holes, 600 / 2*10^4 cell tilings; probes concentrated on vertices, edges, ulp neighbours, index-cell centres/corners, and loops with a vertex exactly at the centre of its index cell.",
+         "Trusted: internal/ref crossing parity (exact orientation + SoS, documented vertex rule), generated loops simple by construction (star-shaped).","DESIGN.md section 5 C04"),
  "C11":("runtime reference-model monitor: every Normalize/IsNormalized/Denormalize/LeafCellsCovered/union/intersection/difference/Contains*/Intersects*/CellUnionFromRange call, s2intersect.Find and the CellIndex range+contents iterators are compared with an exact leaf-interval set model (canonical form and minimal tiling computed independently)",
          "Held on every execution observed: 2*10^5 (quick) / 1.7*10^7 (thorough) hostile multisets and tuples (nested, overlapping, duplicated, sibling groups, whole faces, ends of the curve); every operation must equal the model exactly, including normal form.",
          "Trusted: internal/ref/leafset.go (integer interval sets, self-checked each run by inclusion-exclusion, partition and canonical round-trip identities).","DESIGN.md section 5 C11"),
